@@ -17,7 +17,7 @@ import time
 ROOT = os.path.dirname(os.path.dirname(os.path.abspath(__file__)))
 
 #: seeded changes that are decided by another property's check than the one they were written for
-OWNER = {"C08_r2": "C19", "C07_r4": "C06", "C18_r4": "C16", "C16_r5": "C09", "C02_r6": "C13", "C11_r6": "C06", "C07_r7": "C06", "C18_r7": "C06", "C11_r5": "C01", "C02_r8": "C12", "C06_r4": "C04", "C01_r9": "C09", "C16_r9": "C10"}
+OWNER = {"C08_r2": "C19", "C07_r4": "C06", "C18_r4": "C16", "C16_r5": "C09", "C02_r6": "C13", "C11_r6": "C06", "C07_r7": "C06", "C18_r7": "C06", "C11_r5": "C01", "C02_r8": "C12", "C06_r4": "C04", "C01_r9": "C09", "C16_r9": "C10", "C01_r10": "C02", "C02_r10": "C16", "C08_r10": "C16", "C07_r10": "C09"}
 
 #: seeded changes only the thorough tier reaches (a 3-thread ordering inside two adjacent statements plus an in-process
 #: resubmission: about one evaluation in a few thousand); they are run in that tier whatever MUTANT_TIER says
